@@ -3,6 +3,8 @@ PrematureEndOfInput (and nothing else); truncating between top-level forms reads
 fine; the REPL's continuation prompt follows the same distinction."""
 import contextlib
 import io
+import json
+import os
 import re
 
 from lib import vlib
@@ -20,8 +22,9 @@ META = {
                   "run, comment, tag, discard or string-like leaf, at any depth, with arbitrary separators -- read_many gives "
                   "Premature iff the cut leaves a construct open and otherwise the forms completed so far; no size bound.  "
                   "C19_repl_continuation: the REPL asks for more iff Premature (caught class regenerated from hy/repl.py).  "
-                  "C19_refuted_fstring_field / _dotted_identifier / _fstring_rbrace: three cut classes where the faithful model "
-                  "(and the code) answers LexException -- recorded as known findings.  Every cut point of every generated "
+                  "Cuts inside f-string replacement fields are covered since the fix 156eccc.  C19_refuted_dotted_identifier / "
+                  "_fstring_rbrace: two cut classes where the faithful model (and the code) answers LexException -- "
+                  "recorded as known findings.  Every cut point of every generated "
                   "program is evaluated on hy.read_many (quick ~29k prefixes, thorough ~400k), a sample on REPL.runsource, and "
                   "model = implementation is checked on every prefix.",
     "level_note": "Trusted: as C18/C20.  The theorem quantifies over partial trees; that every cut point of a printed tree is "
@@ -36,12 +39,6 @@ TRUSTED = [
     "translator/reader_tables.py; hand-written model Reader/Model.v tied by differential execution on every prefix",
     "the harness's cut-point labelling (props/reader_common.Render) decides what the property expects at each cut",
 ]
-
-
-def matcher_field(rec, params):
-    """a cut inside an f-string replacement field after its form has begun: read_fcomponent tests getc() == '}' at the end of input"""
-    return (rec["key"] == "open-not-premature" and rec["input"].get("why") in ("field", "field+dotted") and rec["observed"].startswith("Lex")
-            and "trailing junk in field" in rec["observed"])
 
 
 def matcher_dotted(rec, params):
@@ -78,7 +75,6 @@ class QuietREPL:
 
 def run(chk):
     chk.trusted = TRUSTED
-    chk.matchers["c19_fstring_field"] = matcher_field
     chk.matchers["c19_dotted_prefix"] = matcher_dotted
     chk.matchers["c19_fstring_rbrace"] = matcher_rbrace
     chk.assumptions = [
@@ -108,6 +104,24 @@ def run(chk):
 
     def how(t):
         return "PYTHONPATH=%s python -c 'import hy; list(hy.read_many(%r))'" % (vlib.REPO, t)
+
+    # corpus first: reproducers of repaired defects (known_findings.json: fixed entries)
+    cdir = os.path.join(vlib.VERIF, "corpus", "C19")
+    for fn in sorted(os.listdir(cdir)) if os.path.isdir(cdir) else []:
+        for ent in json.load(open(os.path.join(cdir, fn), encoding="utf-8")):
+            ires = impl.read_many(ent["prefix"])
+            chk.count("corpus")
+            chk.case(("corpus", ent["prefix"]), nontrivial=True)
+            if ires[0] != ent["expect"]:
+                chk.fail("corpus-regression", {"prefix": ent["prefix"], "text": ent.get("full"), "corpus": fn},
+                         ires[0] + (": " + ires[1] if len(ires) > 1 and isinstance(ires[1], str) else ""), ent["expect"],
+                         how(ent["prefix"]))
+            if ent.get("full") and impl.read_many(ent["full"])[0] != "Ok":
+                chk.fail("corpus-regression", {"prefix": ent["full"], "corpus": fn}, "does not read", "Ok", how(ent["full"]))
+            if model is not None and ires[0] in ("Ok", "Lex", "Premature"):
+                d = rc.compare(ent["prefix"], model.read_many(ent["prefix"]), ires, oracles)
+                if d:
+                    chk.disagree("Reader.Model.read_many vs hy.read_many", ent["prefix"], d, ires[0])
 
     n_prog = 6000 if thorough else 420
     n_repl = 600 if thorough else 60
